@@ -5,20 +5,30 @@ import mdibgen
 FILES = ('70041_MDIB_Final.xml',)
 
 
-def add_faults(rng, case):
+def add_faults(rng, case, g):
     ops = case['ops']
     # provider restart with a new SequenceId somewhere in the second half, then (sometimes) a reload
     if rng.random() < 0.5 and len(ops) > 3:
         pos = rng.randint(len(ops) // 2, len(ops) - 1)
         ops.insert(pos, {'k': 'reseq', 'n': rng.randint(1, 9), 'inst': rng.random() < 0.5})
     if rng.random() < 0.6:
-        ops.append({'k': 'reload', 'inflight': rng.random() < 0.7,
-                    # in half of the reloads a report arrives on another thread while the buffered ones are replayed
-                    'race': '0x34F00100' if rng.random() < 0.5 else None})
+        reload = {'k': 'reload', 'inflight': rng.random() < 0.7,
+                  # in half of the reloads a report arrives on another thread while the buffered ones are replayed
+                  'race': '0x34F00100' if rng.random() < 0.5 else None}
+        if rng.random() < 0.7:
+            # transactions of every kind that the provider commits AFTER it has built the GetMdibResponse and before
+            # the consumer gets it: their reports are buffered and must be replayed (each exactly once, by its own handler)
+            reload['during'] = g.every_kind_ops() if rng.random() < 0.6 else g.history(rng.randint(1, 4))
+            for o in reload['during']:
+                if rng.random() < 0.2:
+                    o['dup'] = True        # the notification arrives twice inside the window
+        ops.append(reload)
         if rng.random() < 0.5:
             ops.append({'k': 'state', 'tx': 'metric', 'iface': 'classic', 'items': []})   # empty transaction: nothing new
     sched = mdibgen.fault_schedule(rng, len(ops))
     for i, op in enumerate(ops):
+        if op.get('deliver'):            # crafted walks bring their own delivery directives
+            sched[i] = list(op['deliver'])
         if op['k'] == 'reload':
             sched[i] = ['hold']
             for j in range(i + 1, len(ops)):
@@ -76,7 +86,11 @@ def run(ctx):
         rule='provider histories on the loop-back world with a fault-injecting transport: per transaction the pending '
              'notifications are delivered in order / withheld (delay past later reports) / dropped / duplicated / reversed / '
              'newest-first, old notifications are replayed, the provider gets a new SequenceId (+InstanceId) mid-history, '
-             'reload_all with notifications arriving while GetMdib is in flight; after every step the consumer tables are '
+             'InstanceId absent / 0 / a number, crafted walks in which the removal of a descriptor overtakes a withheld state '
+             'report of every kind, reload_all AND the first load with reports of every kind (metric, alert, component, '
+             'operational, waveform, context, description) arriving while GetMdib is in flight - committed before and after '
+             'the snapshot, some twice; per delivery: a stale report (MdibVersion below the consumer\'s) changes nothing; after '
+             'a load: exact mirror, no state without descriptor, no context state in the single-state table; after every step the consumer tables are '
              'judged by the oracle (versions never decrease, every held entry was published by the provider for that '
              'handle, lookups consistent, frozen after a sequence change, exact mirror after reload) and compared with the '
              'consumer model fed with exactly the delivered reports; distinct = distinct implementation traces',
